@@ -284,9 +284,12 @@ struct QVal {
 
 // custom receiver query with a "not forwarded" default
 inline constexpr struct verif_tag_fn {
+  // (no C-variadic fallback: a receiver that does not forward the query must still compile here, whatever its copyability)
   template <class R>
-  auto operator()(const R& r) const noexcept -> decltype(unifex::tag_invoke(*this, r)) { return unifex::tag_invoke(*this, r); }
-  long operator()(...) const noexcept { return -1; }
+  auto operator()(const R& r) const noexcept {
+    if constexpr (unifex::is_tag_invocable_v<verif_tag_fn, const R&>) return unifex::tag_invoke(verif_tag_fn{}, r);
+    else return (long)-1;
+  }
 } verif_tag{};
 
 // ---------------------------------------------------------------------------
